@@ -122,7 +122,7 @@ def cleanup_spec(log):
     return {"results-stored-at-end": e >= 0, "nothing-left-running": a > e, "status-marked-after-stop_all": m > a}
 
 
-@contract(TUNER + ":Tuner.run", props=("C12", "C01", "C13"))
+@contract(TUNER + ":Tuner.run", props=("C12", "C01", "C13", "C02"))
 class Tuner_run:
     params = dict(self=Obj("TunerRun"))
     ghost = RUN_GHOST
